@@ -107,6 +107,8 @@ fn pools(rng: &mut Rng, w: &mut World, d: &mut AutoCommit, foreign: &mut World) 
 macro_rules! call {
     ($cx:expr, $name:expr, $args:expr, $e:expr) => {{
         $cx.count("calls");
+        // distinct (entry point, argument classes)
+        $cx.nontrivial(fnv(format!("{}|{}", $name, $args.split(" i=").next().unwrap_or("")).as_bytes()));
         match catch(|| {
             let _ = $e;
         }) {
